@@ -257,6 +257,11 @@ inline bool drop_F(Rng& r, uint64_t idx)
   World w;
   w.tag = "qF" + std::to_string(idx);
   w.random_backend_options(r);
+  // one scenario in five stops the backend with wait_for_queues_to_empty_before_exit switched off: accepted statements
+  // still queued at stop() may then stay unwritten (that is what the option says), but every discarded one must still
+  // have been reported when the backend thread ends
+  bool const no_wait_at_exit = r.chance(1, 5);
+  w.bo.wait_for_queues_to_empty_before_exit = !no_wait_at_exit;
   make_topology(w, r, 2, 2);
   if (r.chance(1, 2)) w.sinks[0]->slow_us.store(static_cast<uint32_t>(r.pick({10, 60})));
   g_delay.store(static_cast<uint32_t>(r.pick({0, 1, 2})));
@@ -297,7 +302,9 @@ inline bool drop_F(Rng& r, uint64_t idx)
   auto evs = recorder().snapshot();
   DeliverOpts o;
   o.prop = "C08";
+  if (no_wait_at_exit) o.may_be_missing = [](Issue const&) { return true; };
   bool ok = check_delivery(w, all, evs, o, "drop_F");
+  if (no_wait_at_exit) stat_add("drop_scenarios_stopped_without_waiting_for_the_queues");
   uint64_t drops = 0;
   for (auto const& is : all) if (is.res == 0) ++drops;
   if (ok && kBounded)
@@ -338,6 +345,9 @@ inline bool progress_S(Rng& r, uint64_t idx)
   World w;
   w.tag = "pS" + std::to_string(idx);
   w.random_backend_options(r);
+  // one scenario in four: the logger is stamped by a user clock that runs a day ahead (a replayed simulation). What is
+  // ahead of a blocked call must still be consumed - the ordering cut-off does not apply to user clocks
+  if (r.chance(1, 4)) w.user_clock_mask = 1;
   make_topology(w, r, 1, 1);
   recorder().clear();
   SRun run{w, r};
@@ -390,6 +400,7 @@ inline bool progress_S(Rng& r, uint64_t idx)
     run.poll();
   }
   stat_add("progress_scenarios");
+  if (w.user_clock_mask) stat_add("progress_scenarios_with_user_clock_loggers");
   stat_add("progress_near_capacity_requests", static_cast<long long>(probes));
   stat_add("progress_blocked_episodes", static_cast<long long>(blocked_episodes));
   stat_sig("progress_sigs", std::string{kQueueName} + "/" + std::to_string(run.sig_hash));
@@ -403,6 +414,7 @@ inline bool progress_F(Rng& r, uint64_t idx)
   World w;
   w.tag = "pF" + std::to_string(idx);
   w.random_backend_options(r);
+  if (r.chance(1, 4)) w.user_clock_mask = static_cast<uint32_t>(r.range(1, 3)); // user clock a day ahead on some loggers
   make_topology(w, r, 1, 2);
   g_delay.store(static_cast<uint32_t>(r.pick({0, 1})));
   recorder().clear();
@@ -571,7 +583,18 @@ inline bool levels_S(Rng& r, uint64_t idx)
   std::vector<quill::LogLevel> logger_level(nl, quill::LogLevel::TraceL3);
   uint32_t const steps = static_cast<uint32_t>(r.range(40, 250));
   bool ok = true;
-  uint64_t not_evaluated = 0, dyn = 0, sink_throws = 0;
+  uint64_t not_evaluated = 0, dyn = 0, sink_throws = 0, dyn_bt = 0;
+  // half of the scenarios initialise the backtrace ring of every logger (flush level None, never flushed here)
+  if (r.chance(1, 2))
+  {
+    SW& s0 = *run.ws[0];
+    for (uint32_t l = 0; l < nl; ++l)
+    {
+      run.run_on(s0, [wp, l] { tl_control_op = true; wp->loggers[l].lg->init_backtrace(2, quill::LogLevel::None); tl_control_op = false; }, "init_backtrace");
+      if (s0.w->parked() && !run.wait_for(s0, "levels_S")) break;
+    }
+    run.drain("levels_S");
+  }
   for (uint32_t st = 0; st < steps && ok && !run.failed; ++st)
   {
     uint64_t x = r.below(100);
@@ -604,6 +627,10 @@ inline bool levels_S(Rng& r, uint64_t idx)
     quill::LogLevel lvl = static_cast<quill::LogLevel>(r.below(9));
     bool dynamic = r.chance(1, 3);
     if (dynamic) ++dyn;
+    // a run-time level may also be Backtrace: the statement is held back (or, without init_backtrace, reported as an
+    // error), never written - and whatever it leaves in the reused backend slot must not change the level of the next one
+    bool const dyn_backtrace = dynamic && r.chance(1, 6);
+    if (dyn_backtrace) { lvl = quill::LogLevel::Backtrace; ++dyn_bt; }
     uint32_t seq = s.seq++;
     uint32_t len = static_cast<uint32_t>(r.range(0, 40));
     bool evaluated = false;
@@ -630,6 +657,7 @@ inline bool levels_S(Rng& r, uint64_t idx)
       break;
     }
     if (!should) { ++not_evaluated; continue; }
+    if (dyn_backtrace) continue; // enqueued, but demanded of no sink (a delivery would be reported as unknown statement)
     Exp e;
     e.is.tid = s.tid; e.is.seq = seq; e.is.logger = li; e.is.level = lvl; e.is.len = len; e.is.res = 1; e.is.dynamic = dynamic;
     for (auto const& m : sm) e.sink_levels.push_back(m.level);
@@ -686,6 +714,7 @@ inline bool levels_S(Rng& r, uint64_t idx)
   stat_add("levels_statements_enqueued", static_cast<long long>(exps.size()));
   stat_add("levels_statements_not_evaluated", static_cast<long long>(not_evaluated));
   stat_add("levels_dynamic_statements", static_cast<long long>(dyn));
+  stat_add("levels_dynamic_statements_with_level_backtrace", static_cast<long long>(dyn_bt));
   stat_add("levels_sink_write_throws", static_cast<long long>(sink_throws));
   stat_sig("levels_sigs", std::to_string(run.sig_hash));
   w.teardown_loggers();
